@@ -251,6 +251,26 @@ theorem C19_cmp_using_notimpl (c : Cmp.Case) (x y : Opd) (hr : c.requireSameType
   ⟨dunder_mismatch c x y hr hy ht op, oper_mismatch c x y hr hx hy ht op⟩
 
 open Cmp in
+/-- **C19_cmp_using_mismatch_never_calls**: same type required and payload types differ ⇒ evaluating any of the
+    six methods or any of the six operators (reflected attempts included, derived methods included) calls no
+    supplied function at all — so a function defined only for the intended type can never see the foreign payload. -/
+theorem C19_cmp_using_mismatch_never_calls (c : Cmp.Case) (x y : Opd) (hr : c.requireSameType = true)
+    (hx : x.cmpObj = true) (hy : y.cmpObj = true) (ht : y.ty ≠ x.ty) (op : Op) :
+    dunderLog c op x y = [] ∧ operLog c op x y = [] :=
+  ⟨dunderLog_mismatch c x y hr hy ht op, operLog_mismatch c x y hr hx hy ht op⟩
+
+open Cmp in
+/-- **C19_cmp_using_called_once**: a supplied function whose operands pass the comparability check is called
+    exactly once, with `(self.value, other.value)` in this order, and its result — a bool, NotImplemented or its
+    own exception (also the one a partial function raises on a payload of another class) — is the method's. -/
+theorem C19_cmp_using_called_once (c : Cmp.Case) (op : Op) (r : Rel) (x y : Opd)
+    (hs : slot c op = some r) (h : Comparable0 c x y) :
+    dunderLog c op x y = [callEv op x y] ∧ dunder c op x y = fnRes c r x y := by
+  rw [dunderLog_supplied c op r x y hs, methodLog_comparable0 c op x y h,
+    dunder_supplied c op r x y hs, method_comparable0 c r x y h]
+  exact ⟨rfl, rfl⟩
+
+open Cmp in
 /-- **C19_cmp_using_derived**: functions taken from the one order on the integers, `eq` among them and at least
     one ordering function (any of the 15 non-empty subsets): every method — supplied or derived by
     `functools.total_ordering` from the preferred root — and every operator computes that order, for all integers. -/
@@ -262,14 +282,14 @@ theorem C19_cmp_using_derived (c : Cmp.Case) (x y : Opd) (hc : consistent c = tr
 
 example : ∃ c : Cmp.Case, Cmp.consistent c = true ∧ c.eq.isSome = true ∧ 0 < Cmp.numOrd c ∧ c.lt = none :=
   ⟨{ eq := some .eq, lt := none, le := none, gt := none, ge := some .ge, requireSameType := true,
-     className := "K", a := 0, b := 1, rhs := .same }, by decide⟩
+     className := "K", a := 0, b := 1, rhs := .same, partialFns := false }, by decide⟩
 
 open Cmp in
 /-- **C19_cmp_using_total**: whatever boolean functions are supplied (consistent with an order or not), as soon
-    as `eq` and one ordering function are there, all six methods exist and answer comparable operands with a
-    bool — no operator is left to `object`'s NotImplemented. -/
+    as `eq` and one ordering function are there (none returning NotImplemented or raising), all six methods exist
+    and answer comparable operands with a bool — no operator is left to `object`'s NotImplemented. -/
 theorem C19_cmp_using_total (c : Cmp.Case) (x y : Opd) (h : Comparable c x y) (req : Rel) (he : c.eq = some req)
-    (hn : 0 < numOrd c) (hall : ∀ op r, slot c op = some r → r ≠ .ni) (op : Op) :
+    (hn : 0 < numOrd c) (hall : ∀ op r, slot c op = some r → r ≠ .ni ∧ r ≠ .boom) (op : Op) :
     isBool (dunder c op x y) = true ∧ oper c op x y = dunder c op x y := by
   have hb := dunder_isBool c x y h req he hn hall op
   exact ⟨hb, oper_of_ne_NI c op x y (isBool_ne_NI hb)⟩
